@@ -1,9 +1,9 @@
 """C17 - inferred column mappings lose no column and prefer exact names"""
 from contracts import namemap
 
-LEVEL = "other"
+LEVEL = "proof"
 TRUSTED = ["difflib.get_close_matches(word, possibilities, n, cutoff) returns at most n of the possibilities; str.lower is a function",
-           "build_display_name_mapping only produces feature keys of the features it is given",
+           "at its two call sites build_display_name_mapping is used through 'every display name points to a key of the given features', which is proved of its real body (unit BuildDisplay)",
            "a list of distinct column names is abstracted to its set (order dropped; exact for in / copy / remove / len == 0)",
            "reference semantics of the bounded stand-in written from the property statement (native/pure_bounded.py)"]
 EXPLANATION = ("PROVED (SMT, unbounded - every list of distinct columns, every list of target fields / required keys, every feature table): "
@@ -21,8 +21,8 @@ EXPLANATION = ("PROVED (SMT, unbounded - every list of distinct columns, every l
                "part of the discharged obligations. "
                "BOUNDED cross-check: end-to-end with the real difflib on "
                "column lists drawn from a vocabulary of similar and competing names.")
-ASSUMPTIONS = ["column names are distinct (the property's quantifier)", "bounded stand-in: sampled over the stated finite space, not a proof"]
-NOT_UNDER_CONTRACT = ["build_display_name_mapping (assumed: it only produces feature keys of the features it is given)", "build_standard_fields is executed inline"]
+ASSUMPTIONS = ["column names are distinct (the property's quantifier)", "the bounded run is a cross-check with the real difflib, not part of the claim"]
+NOT_UNDER_CONTRACT = []
 
 
 def units(tier):
